@@ -317,8 +317,10 @@ def header_reader_rules(prog, chk, pid):
             why = "value is not read with the length byte just read"
         if ok:
             # exit: exactly when tag == 0 and len == 0 (break guard), after the (empty) value was read
-            brk = [g for g in res.events if g.kind == "guard" and g.d.get("term") == "break" and any(f[0] == "loop" and f[1] == items[1].lid for f in g.ctx)]
-            ok = len(brk) == 1 and len(lr.breaks) == 1
+            # (`return` inside a generator that produces the records ends the header just like `break` in an inline loop)
+            brk = [g for g in res.events if g.kind == "guard" and any(f[0] == "loop" and f[1] == items[1].lid for f in g.ctx)
+                   and (g.d.get("term") == "break" or (g.d.get("term") == "return" and g.fn is not None and getattr(g.fn, "is_generator", False)))]
+            ok = len(brk) == 1 and len(lr.breaks) == (1 if brk[0].d.get("term") == "break" else 0)
             if ok:
                 r = raise_rel(brk[0])
                 want_atoms = 0
@@ -353,9 +355,12 @@ def key_flow_rules(prog, chk, pid, hdr=None):
         u = unp[0]
         recv = unsnap(u.d["fnterm"]).args[0] if u.kind == "dyncall" else u.d["recv"]
         recv = unsnap(recv)
-        ok = recv.op == "sub" and unsnap(recv.args[0]).op == "static" and unsnap(recv.args[0]).args[0].endswith("AUTH_BLOCK_CLS_MAP") and any(unsnap(recv.args[1]) is v for v in tagf.int_views)
+        # (the tag / value may have travelled through a sequence of records -- e.g. a generator that yields them -- before being used: element views are looked through)
+        from rules.bf3 import strip_elem as _se
+
+        ok = recv.op == "sub" and unsnap(recv.args[0]).op == "static" and unsnap(recv.args[0]).args[0].endswith("AUTH_BLOCK_CLS_MAP") and any(_se(recv.args[1]) is unsnap(v) for v in tagf.int_views)
         a = u.d["args"]
-        ok = ok and len(a) == 2 and unsnap(a[0]) is unsnap(valf.result) and _is_param(a[1], "ext_encryptors")
+        ok = ok and len(a) == 2 and _se(a[0]) is unsnap(valf.result) and _is_param(a[1], "ext_encryptors")
         why = "block class is not selected by the tag read, or unpack does not receive the value read and the caller's decryptors"
         table = ex.statics.get(unsnap(recv.args[0]).args[0]) if ok else None
         if ok:
@@ -404,7 +409,9 @@ def key_flow_rules(prog, chk, pid, hdr=None):
     oku = len(news) == 1
     if oku:
         a = news[0].d["args"]
-        oku = len(a) == 2 and any(unsnap(a[0]) is v for v in tagf.int_views) and unsnap(a[1]) is unsnap(valf.result)
+        from rules.bf3 import strip_elem as _se2
+
+        oku = len(a) == 2 and any(_se2(a[0]) is unsnap(v) for v in tagf.int_views) and _se2(a[1]) is unsnap(valf.result)
         oku = oku and any(f[0] == "except" and "KeyError" in f[3] for f in news[0].ctx)
     chk.require(oku, P("unknown-block-identity"), fi.qualname, "except KeyError: UnknownAuthBlock(tag, value)", news[0].where if news else where, "a block that cannot be opened is kept with exactly the tag and bytes read", "blocks without decryptor are not preserved as (tag read, bytes read)")
     fu = prog.method(BEC2 + ".UnknownAuthBlock", "pack")
@@ -502,7 +509,7 @@ def single_key_source_rules(prog, chk, pid):
     chk.require(ok, P("fresh-key-per-file"), fi.qualname, "self.session_key = session_key or random_bytes(16)", where, "without a given key a 16-byte random key is drawn inside the constructor body (per instance; no default-argument or class-level caching)", why)
     # registered RNG: os.urandom(num_bytes), nothing cached
     ex0 = Exec(prog)
-    rb = ex0.global_overrides.get(("bec2format.crypto", "__random_bytes"))
+    rb = ex0.registry.get("random_bytes")
     ok = rb is not None and rb.op == "func"
     why = "no random source is registered by the plug-in"
     if ok:
@@ -521,7 +528,7 @@ def single_key_source_rules(prog, chk, pid):
         ok = ok and len(calls) == 1 and unsnap(rc.ret) is unsnap(calls[0].d["result"]) and _is_param(calls[0].d["args"][0], fc.params[0])
     chk.require(ok, P("fresh-key-per-file"), "register_crypto_plugin.random_bytes", "os.urandom(num_bytes), no caching", "", "the registered RNG returns fresh OS randomness of the requested length on every call", why)
     # registered key generator: SigningKey.generate(curve=NIST256p) per call
-    gk = ex0.global_overrides.get(("bec2format.crypto", "__PrivateEccKey"))
+    gk = ex0.registry.get("PrivateEccKey")
     ok = gk is not None and gk.op == "class"
     why = "no private-key class is registered"
     if ok:
